@@ -112,6 +112,6 @@ impl Api {
     // addr_validate(s) returns the same text as an Addr, or Err (T2)
     #[verifier::external_body]
     pub fn addr_validate(&self, human: &str) -> (r: StdResult<Addr>)
-        ensures r is Ok ==> r->Ok_0@ == human@,
+        ensures r is Ok ==> r->Ok_0@ == human@ && human@.len() > 0,   // a validated address is never empty (T2)
     { unimplemented!() }
 }
